@@ -1,6 +1,7 @@
 """C07 - bundles are stamped with logical time plus latency; scores are ordered."""
 
 import ast
+import re
 from fractions import Fraction
 
 from ..loader import norm, full, walk_local, walk_local_ordered
@@ -83,7 +84,9 @@ def rule_tag(ctx):
     h = repo.func('sc3.base._oscinterface:OscScore._get_logical_time')
 
     def normalise(fi, off):
-        ps = fi.params[off:]
+        ps = [q for q in fi.params if q not in ('self', 'cls')]
+        if len(ps) < 2:
+            return ['<unexpected signature>']
         out = []
         for s in _strip_doc(fi.node.body):
             txt = norm(s)
@@ -96,10 +99,13 @@ def rule_tag(ctx):
     hb = normalise(h, 1)
     want_pre = ['if TIME is None or TIME < 0.0: TIME = 0.0',
                 'if _libsc3.main.current_tt is not _libsc3.main.main_tt: TIME += SEND']
-    ctx.ob('C07.tag', f'{g.fq}:rule', gb[:-1] == want_pre and gb[-1] == 'return int(TIME * clk.SystemClock._SECONDS_TO_OSC)',
+    # either both spell the rule out, or the timetag is the logical time converted (one helper, no drift possible)
+    delegated = len(gb) == 2 and re.fullmatch(r'TIME = (\w+\.)*_get_logical_time\((\w+, )?SEND, TIME\)', gb[0]) is not None
+    ctx.ob('C07.tag', f'{g.fq}:rule', (gb[:-1] == want_pre or delegated) and gb[-1] == 'return int(TIME * clk.SystemClock._SECONDS_TO_OSC)',
            f'NRT timetag must clamp to 0, add the send instant inside routines only, and scale; found {gb}', g.node, g.module)
-    ctx.ob('C07.tag', f'{h.fq}:in-sync', hb[:-1] == gb[:-1] and hb[-1] == 'return TIME',
-           f'_get_logical_time {hb} must equal _get_timetag {gb} minus the final conversion', h.node, h.module)
+    ctx.ob('C07.tag', f'{h.fq}:in-sync', hb[:-1] == want_pre and hb[-1] == 'return TIME',
+           f'_get_logical_time {hb} must be {want_pre} then `return TIME`: a negative latency means "now" (clamped before the send '
+           f'instant is added), exactly as in _get_timetag {gb}', h.node, h.module)
     imm = repo.module('sc3.base._osclib').assigns.get('IMMEDIATELY')
     ctx.ob('C07.tag', 'sc3.base._osclib:IMMEDIATELY', U.literal(imm) == 1, 'OSC "immediately" timetag is 1', imm, repo.module('sc3.base._osclib'))
     # NRT send_msg -> bundle at current time
@@ -278,6 +284,9 @@ def run(ctx):
 
 
 MUTANTS = [
+    dict(rule='C07.tag', name='NRT negative latency clamped after adding the send instant (seed C07-c)', file='sc3/base/_oscinterface.py',
+         old="        # Changes in this method must be synced with it, or refactored.\n        if time is None or time < 0.0:\n            time = 0.0\n        if _libsc3.main.current_tt is not _libsc3.main.main_tt:\n            time += send_time\n        return time",
+         new="        if time is None:\n            time = 0.0\n        if _libsc3.main.current_tt is not _libsc3.main.main_tt:\n            time += send_time\n        return max(time, 0.0)"),
     dict(rule='C07.src', name='send instant from physical time', file='sc3/base/_oscinterface.py',
          old="        send_time = _libsc3.main.current_tt._seconds\n        self._send(self._build_bundle(send_time, [time, *elements]), target)",
          new="        send_time = _libsc3.main.elapsed_time()\n        self._send(self._build_bundle(send_time, [time, *elements]), target)"),
@@ -315,5 +324,8 @@ MUTANTS = [
 REPAIRS = []
 
 EQUIV = [
+    dict(name='NRT timetag delegates to the (unchanged) logical time helper', file='sc3/base/_oscinterface.py',
+         old="        # Changes in this method must be synced with OscScore._get_logical_time.\n        if time is None or time < 0.0:\n            time = 0.0  # IMMEDIATELY is not needed in nrt.\n        # In NRT bundle's time generated outside a routine is\n        # always absolute time (from zero as reference time).\n        if _libsc3.main.current_tt is not _libsc3.main.main_tt:\n            time += send_time\n        return int(",
+         new="        time = OscScore._get_logical_time(None, send_time, time)\n        return int("),
     dict(name='rename loop variable of OscScore.finish', file='sc3/base/_oscinterface.py', start='    def finish(self, tailtime=0.0):', end='    def write(self, path):', rename=[('entry', 'item')]),
 ]
